@@ -83,7 +83,9 @@ impl Vm {
             pest::verif::vm_rule_guard(rule, state.position().pos(), state.atomicity() as u8);
         if let Some(ref listener) = self.listener {
             if listener(rule.to_owned(), state.position()) {
-                return Err(ParserState::new(state.position().line_of()));
+                // Fail with the current state: enclosing combinators may still recover from
+                // this failure and index into the token queue they have built so far.
+                return Err(state);
             }
         }
         // A grammar may define rules named like the non-keyword built-ins (ASCII_DIGIT,
